@@ -18,7 +18,8 @@ CONSTANTS N,            \* number of (well prepared) sites, >= 1
           Reorder,      \* BOOLEAN: optimize_qubit_ordering with a non-identity permutation
           MaxSweeps,    \* DMRG
           ResumePermutes, \* BOOLEAN: does the resume path apply the inverse permutation (mechanism switch)
-          AllowCrash    \* BOOLEAN
+          AllowCrash,   \* BOOLEAN
+          UpdateAfterRebuild \* BOOLEAN: timestep_complete rewrites the drive terms AFTER a possible make_H rebuild (code: TRUE)
 Sites == 0..(N - 1)
 Bonds == 0..(N - 2)
 LR == "LR"
@@ -27,29 +28,33 @@ VARIABLES ts, sw, dir, center, nL, nR,       \* control state of the impl object
           pair, single,                        \* time credit (half steps) received in the current step
           fills,                               \* number of fill_results calls so far (t=0 included)
           sweeps, conv,                        \* DMRG: sweeps done in this step, converged flag (environment)
+          driveSet,                            \* the MPO's single-atom (drive) slots hold the row of the current step
           disk,                                \* last autosave: a snapshot of the control state (valid iff fileExists)
           phase,                               \* "run" | "crashed" | "resumed" | "post" | "returned" | "raised"
           order,                               \* index space of the per-atom results: "site" | "register"
           fileExists, path
-ctl == <<ts, sw, dir, center, nL, nR, pair, single, fills, sweeps, conv>>
-vars == <<ts, sw, dir, center, nL, nR, pair, single, fills, sweeps, conv, disk, phase, order, fileExists, path>>
+ctl == <<ts, sw, dir, center, nL, nR, pair, single, fills, sweeps, conv, driveSet>>
+vars == <<ts, sw, dir, center, nL, nR, pair, single, fills, sweeps, conv, driveSet, disk, phase, order, fileExists, path>>
 
 Zero(S) == [x \in S |-> 0]
 Snapshot == [ts |-> ts, sw |-> sw, dir |-> dir, center |-> center, nL |-> nL, nR |-> nR,
-             pair |-> pair, single |-> single, fills |-> fills, sweeps |-> sweeps, conv |-> conv]
+             pair |-> pair, single |-> single, fills |-> fills, sweeps |-> sweeps, conv |-> conv, driveSet |-> driveSet]
 Finished == ts >= K
 
 Init == /\ ts = 0 /\ sw = 0 /\ dir = LR /\ center = 0 /\ nL = 1 /\ nR = (IF N >= 2 THEN N - 1 ELSE 1)
-        /\ pair = Zero(Bonds) /\ single = Zero(Sites) /\ fills = 1 /\ sweeps = 0 /\ conv = FALSE
+        /\ pair = Zero(Bonds) /\ single = Zero(Sites) /\ fills = 1 /\ sweeps = 0 /\ conv = FALSE /\ driveSet = TRUE
         /\ disk = [ts |-> 0, sw |-> 0, dir |-> LR, center |-> 0, nL |-> 1, nR |-> (IF N >= 2 THEN N - 1 ELSE 1), pair |-> Zero(Bonds),
-                   single |-> Zero(Sites), fills |-> 1, sweeps |-> 0, conv |-> FALSE]
+                   single |-> Zero(Sites), fills |-> 1, sweeps |-> 0, conv |-> FALSE, driveSet |-> TRUE]
         /\ phase = "run" /\ order = (IF Reorder THEN "site" ELSE "register")
         /\ fileExists = FALSE /\ path = "run"
 
 \* ---- timestep_complete: fill, ts += 1, fresh baths (init_baths)
+\* the environment decides whether the interaction matrix changed (SLM mask end): then make_H rebuilds the MPO with EMPTY
+\* drive slots, and update_H must run after the rebuild
 StepDone == /\ fills' = fills + 1 /\ ts' = ts + 1
             /\ nL' = 1 /\ nR' = (IF N >= 2 THEN N - 1 ELSE 1)
             /\ pair' = Zero(Bonds) /\ single' = Zero(Sites)
+            /\ \E changed \in BOOLEAN : driveSet' = (UpdateAfterRebuild \/ ~changed)
 
 \* ---- TDVP progress() ----------------------------------------------------------------------
 TdvpCorner ==   \* 1 or 2 sites: a single full-step evolution per progress()
@@ -57,6 +62,7 @@ TdvpCorner ==   \* 1 or 2 sites: a single full-step evolution per progress()
    /\ IF N = 1 THEN center = 0 /\ single' = [single EXCEPT ![0] = @ + 2] /\ UNCHANGED <<pair, center>>
       ELSE center \in {0, 1} /\ center' = 0 /\ UNCHANGED single /\ pair' = [pair EXCEPT ![0] = @ + 2]
    /\ fills' = fills + 1 /\ ts' = ts + 1 /\ UNCHANGED <<sw, dir, nL, nR, sweeps, conv>>
+   /\ \E changed \in BOOLEAN : driveSet' = (UpdateAfterRebuild \/ ~changed)
    \* (credits are reset by the next step in the corner case: tracked through CornerShape)
 TdvpLR ==
    /\ N >= 3 /\ dir = LR
@@ -68,7 +74,7 @@ TdvpLR ==
       ELSE /\ center \in {sw, sw + 1}
            /\ pair' = [pair EXCEPT ![sw] = @ + 2]                \* rightmost pair: full step, centre left
            /\ center' = sw /\ dir' = RL /\ UNCHANGED <<single, nL, nR, sw>>
-   /\ UNCHANGED <<ts, fills, sweeps, conv>>
+   /\ UNCHANGED <<ts, fills, sweeps, conv, driveSet>>
 TdvpRL ==
    /\ N >= 3 /\ dir = RL /\ sw > 0
    /\ center = sw
@@ -81,7 +87,7 @@ TdvpRL ==
            /\ Assert(\A q \in Sites : s1[q] = (IF q = 0 \/ q = N - 1 THEN 0 ELSE 0 - 2), "sweep shape: interior sites evolved back by one full step")
            /\ StepDone
       ELSE /\ pair' = p1 /\ single' = s1 /\ center' = sw - 1 /\ sw' = sw - 1 /\ nL' = nL - 1 /\ nR' = nR + 1
-           /\ UNCHANGED <<dir, ts, fills>>
+           /\ UNCHANGED <<dir, ts, fills, driveSet>>
    /\ UNCHANGED <<sweeps, conv>>
 \* ---- DMRG progress() ----------------------------------------------------------------------
 DmrgLR ==
@@ -89,7 +95,7 @@ DmrgLR ==
    /\ center' = sw + 1
    /\ IF sw < N - 2 THEN nL' = nL + 1 /\ nR' = nR - 1 /\ sw' = sw + 1 ELSE UNCHANGED <<nL, nR, sw>>
    /\ dir' = (IF sw' = N - 2 THEN RL ELSE LR)
-   /\ UNCHANGED <<ts, pair, single, fills, sweeps, conv>>
+   /\ UNCHANGED <<ts, pair, single, fills, sweeps, conv, driveSet>>
 DmrgRL ==
    /\ dir = RL /\ N >= 2
    /\ IF sw > 0 THEN nL' = nL - 1 /\ nR' = nR + 1 /\ sw' = sw - 1 ELSE UNCHANGED <<nL, nR, sw>>
@@ -99,8 +105,9 @@ DmrgRL ==
                 IF c /\ sweeps >= 1                               \* previous_energy is None in the first sweep
                 THEN /\ fills' = fills + 1 /\ ts' = ts + 1 /\ sweeps' = 0 /\ conv' = TRUE
                      /\ nL' = 1 /\ nR' = N - 1 /\ UNCHANGED <<pair, single>>
-                ELSE /\ sweeps' = sweeps + 1 /\ conv' = FALSE /\ UNCHANGED <<ts, fills, pair, single>>
-      ELSE center' = sw' /\ UNCHANGED <<dir, ts, fills, sweeps, conv, pair, single>>
+                     /\ \E changed \in BOOLEAN : driveSet' = (UpdateAfterRebuild \/ ~changed)
+                ELSE /\ sweeps' = sweeps + 1 /\ conv' = FALSE /\ UNCHANGED <<ts, fills, pair, single, driveSet>>
+      ELSE center' = sw' /\ UNCHANGED <<dir, ts, fills, sweeps, conv, pair, single, driveSet>>
 DmrgRaise == /\ Mode = "dmrg" /\ phase \in {"run", "resumed"} /\ ~Finished /\ sweeps >= MaxSweeps
              /\ phase' = "raised" /\ UNCHANGED <<ctl, disk, order, fileExists, path>>
 
@@ -110,7 +117,7 @@ Progress ==
       ELSE sweeps < MaxSweeps /\ (DmrgLR \/ DmrgRL)
    \* save_simulation() at the end of progress(): the environment decides whether the interval elapsed
    /\ \/ (disk' = [ts |-> ts', sw |-> sw', dir |-> dir', center |-> center', nL |-> nL', nR |-> nR', pair |-> pair',
-                    single |-> single', fills |-> fills', sweeps |-> sweeps', conv |-> conv'] /\ fileExists' = TRUE)
+                    single |-> single', fills |-> fills', sweeps |-> sweeps', conv |-> conv', driveSet |-> driveSet'] /\ fileExists' = TRUE)
       \/ UNCHANGED <<disk, fileExists>>
    /\ UNCHANGED <<phase, order, path>>
 
@@ -118,7 +125,7 @@ Crash == /\ AllowCrash /\ phase = "run" /\ fileExists /\ phase' = "crashed"
          /\ UNCHANGED <<ctl, disk, order, fileExists, path>>
 Resume == /\ phase = "crashed" /\ phase' = "resumed" /\ path' = "resume"
           /\ ts' = disk.ts /\ sw' = disk.sw /\ dir' = disk.dir /\ center' = disk.center /\ nL' = disk.nL /\ nR' = disk.nR
-          /\ pair' = disk.pair /\ single' = disk.single /\ fills' = disk.fills /\ sweeps' = disk.sweeps /\ conv' = disk.conv
+          /\ pair' = disk.pair /\ single' = disk.single /\ fills' = disk.fills /\ sweeps' = disk.sweeps /\ conv' = disk.conv /\ driveSet' = disk.driveSet
           /\ UNCHANGED <<disk, order, fileExists>>
 \* MPSBackend._run: loop finished -> remove the autosave file; then the caller's post-processing
 RunLoopDone == /\ phase \in {"run", "resumed"} /\ Finished /\ phase' = "post" /\ fileExists' = FALSE
@@ -132,6 +139,8 @@ Spec == Init /\ [][Next]_vars /\ WF_vars(Progress) /\ WF_vars(Resume) /\ WF_vars
 \* ------------------------------------------------------------------ requirement
 BathShape == (N >= 3 /\ phase \in {"run", "resumed"} /\ ~Finished) => (nL = sw + 1 /\ nR = N - 1 - sw)
 CentreFollowsSweep == (N >= 3 /\ ~Finished) => center \in {sw, sw + 1}
+\* C02: no evolution with an MPO whose drive terms were never written (update_H after every make_H rebuild)
+DriveWritten == (phase \in {"run", "resumed"} /\ ~Finished) => driveSet
 OneFillPerStep == fills = ts + 1                                      \* C14 / C21: one fill per completed step (+ t = 0)
 StepsInOrder == [][ts' = ts \/ ts' = ts + 1 \/ phase = "crashed"]_vars
 ResumeRestores == [][phase = "crashed" => (ts' = disk.ts /\ fills' = disk.fills)]_vars
